@@ -52,6 +52,12 @@ CLAIMED = {
  "C14": ("smx", SMX,
          "On five base scripts run on the real state machine with overflow checks on: every single failing storage write, every pair, all-of-a-kind, all-on-a-key and everything (differential: events and wire requests equal the healthy run); every protocol key and the app JSON preset to each of 13 extreme / mistyped values (singles, and all pairs in thorough); a wall-clock jump from a 7-entry menu before any clock read (<=1/2 per run); every truncation and single-bit flip of 4 response documents, every status 100-599 x 6 header sets x CUP, and 62 service URL strings through the one-shot flow; each check must end with a delivered result and nothing may unwind.",
          "Installer/policy answers are contract-conforming; log formatting is not exercised (no tracing subscriber); inputs outside the listed families are not reached.", "3/C14"),
+ "C11": ("smx", SMX,
+         "The real state machine runs with every environment operation blocking (timers, HTTP, plan, install, progress, reboot) and the select! branch order owned by the explorer; clients issue 1-2 requests whose injection step is enumerated exhaustively over the horizon, combined with bounded non-default scheduling / select-order choices and all environment scripts (throttled, no update, install + reboot wait); after a default-schedule drain every request must have exactly one reply, and each reply is matched against the policy call log (Started/Throttled need a distinct decision with the request's options and that answer between send and reply; AlreadyRunning needs an overlapping busy interval; on-demand upgrades of the reboot question need an on-demand request); dropping all handles / the stream at every step is explored separately.",
+         "Same-thread use of ControlHandle; horizon 40/50 steps; deviation bound 1-3 on scheduling choices other than the injection step.", "3/C11"),
+ "C12": ("smx", SMX,
+         "Timers are pending operations fired by the explorer in every order and subset (bounded non-default scheduling choices) for all timing shapes (wall / monotonic / both) x minimum wait (none, 7 s, 0 s) x policy answers (allowed / too soon) x optional control request over 2-3 loop iterations, and in the reboot wait with the reboot refused once or twice; log invariants: one timing question per wait, announced unchanged, exactly the timers it prescribes, an unrequested decision or ping only after all of them fired (and it does begin once they have), the reboot question re-asked only after its 30-minute timer or an on-demand request.",
+         "Timer completion = flag + waker call by the harness; deviation bound 2/3.", "3/C12"),
 }
 
 PENDING_REASON = "check under construction in this round (design in DESIGN.md section 3); not claimed until its machinery is committed"
